@@ -601,8 +601,11 @@ impl wirefilter::FunctionDefinition for Boom {
         Box::new(move |args| {
             let first = args.next();
             if mode == Some(3) {
-                if let Some(Ok(wirefilter::LhsValue::Int(13))) = first {
-                    panic!("boom-at-match-55e0");
+                if let Some(Ok(wirefilter::LhsValue::Int(v))) = first {
+                    if v >= 13 {
+                        // one panic site, a different payload per value
+                        panic!("boom-at-match-55e0-{v}");
+                    }
                 }
             }
             Some(wirefilter::LhsValue::Bool(true))
@@ -671,8 +674,19 @@ pub fn child(args: &[String]) -> i32 {
         if m.status != Status::Panic || m.matched {
             return fail(format!("match panic reported as {:?}/{}", m.status, m.matched));
         }
-        if !le().contains("boom-at-match-55e0") {
+        if !le().contains("boom-at-match-55e0-13") {
             return fail(format!("match panic message lost: {}", le()));
+        }
+        // a second panic from the same source line with another payload: the message is this panic's
+        for v in [14i64, 15 + round as i64] {
+            assert!(ffi::wirefilter_add_int_value_to_execution_context(&mut cx, b"n".as_ptr().cast(), 1, v));
+            let m = ffi::wirefilter_match(&f, &cx);
+            if m.status != Status::Panic || m.matched {
+                return fail(format!("match panic reported as {:?}/{}", m.status, m.matched));
+            }
+            if !le().contains(&format!("boom-at-match-55e0-{v}")) {
+                return fail(format!("the last error after a panic with payload boom-at-match-55e0-{v} describes another panic: {}", le().lines().next().unwrap_or("")));
+            }
         }
         match last_error() {
             Some((s, n)) if n == s.len() + 1 => {}
